@@ -655,8 +655,8 @@ def two_level_stream(run, drv, n_cases):
         if adv:
             it = adv[0]
             pos = G.adv_position(G.expand_ell(ix, len(bs) + 2), sdout)
-            if it[0] == "tens" and pos == "on":
-                modelled = False
+            if it[0] == "tens" and pos == "on" and len(it[2]) >= 2:
+                modelled = False      # (rank-1 integer tensors on the outer stack dim: Model/C08Lazy2T.lean)
             if it[0] == "mask" and len(it[1]) >= 2 and pos in ("on", "spanning"):
                 modelled = False
             # a mask / tensor addressed to the INNER stack dim goes through lazyGetCoreM of the inner stacks: modelled
